@@ -9,15 +9,19 @@
      in k item            item in top
      f arg n (k item)*n   list(top.filter(items, prereleases=arg))  -> positions and kinds of the returned objects
      str | len | pre | eq output str(top) | len(top) | top.prereleases | top-1 == top
+     eqs k text           top == "text" (k = s) | top == Specifier(text) (k = X) | top == len(text) (k = n, an int);
+                          InvalidSpecifier escaping from == ends the run with !E
+   Override / argument tokens: T F N, and the non-bool values 1 0 (int) S E (non-empty / empty str), read by truthiness as the code does.
    Output: the outputs joined by ';'; a failing construction ends the run with !E (InvalidSpecifier) or !V (ValueError). *)
 From Coq Require Import List NArith Bool String.
 Import ListNotations.
-Require Import VParse Py SpecModel SpecContains SetsModel Show.
+Require Import VParse Py SpecModel SpecContains SetsModel SetsOps SetsWorld Show.
 Open Scope N_scope.
 
 
 Definition parse_tri (s : list N) : option bool :=
-  if seqb s [84] then Some true else if seqb s [70] then Some false else None.
+  if seqb s [84] || seqb s [49] || seqb s [83] then Some true
+  else if seqb s [70] || seqb s [48] || seqb s [69] then Some false else None.
 Definition show_tri (o : option bool) : list N := match o with Some true => [84] | Some false => [70] | None => [78] end.
 Definition show_outcome (o : outcome) : list N := match o with Ans b => show_bool b | BadItem => [69] | Escaped => [88] end.
 Definition show_nat (n : nat) : list N := show_N (N.of_nat n).
@@ -96,12 +100,22 @@ Fixpoint exec (fuel : nat) (stack : list obj) (args : list (list N)) (out : list
       else if seqb op (asc "&s") then
         match rest, stack with
         | t :: rest', OSet A :: st =>
-            match SpecifierSet t None with
+            match set_and_str A t with
+            | AndInvalid => bang_E :: out
+            | AndConflict => bang_V :: out
+            | AndOk C => exec fuel' (OSet C :: st) rest' out
+            end
+        | _, _ => bad_prog :: out
+        end
+      else if seqb op (asc "eqs") then
+        match rest, stack with
+        | k :: t :: rest', OSet A :: _ =>
+            let r := if seqb k (asc "X") then match Specifier t with Some sp => set_eq_spec A sp | None => None end
+                     else if seqb k (asc "n") then Some false          (* an object that is neither str, Specifier nor SpecifierSet: NotImplemented -> False *)
+                     else set_eq_str A t in
+            match r with
+            | Some b => exec fuel' stack rest' (show_bool b :: out)
             | None => bang_E :: out
-            | Some B => match set_and A B with
-                        | Some C => exec fuel' (OSet C :: st) rest' out
-                        | None => bang_V :: out
-                        end
             end
         | _, _ => bad_prog :: out
         end
@@ -154,6 +168,113 @@ Fixpoint exec (fuel : nat) (stack : list obj) (args : list (list N)) (out : list
     end
   end.
 
+(* Second command, "s.world": objects with identity (SetsWorld).  Specifier objects and sets are numbered in order of creation.
+     X ov text            cells += Specifier(text, prereleases=ov)
+     L ov n a1..an        sets += SpecifierSet([cells[a1], ...], prereleases=ov)       (the very objects)
+     & i j                sets += sets[i] & sets[j]                                     (!V ends the run)
+     P i ov               sets[i].prereleases = ov            M a ov   cells[a].prereleases = ov   (a member object, through its own reference)
+     c i arg inst k item | in i k item | f i arg n (k item)*n | pre i | str i           observations of sets[i]
+     xc a arg k item | xf a arg n (k item)*n | xpre a                                    observations of cells[a] *)
+Fixpoint take_n (n : nat) (args : list (list N)) : list (list N) * list (list N) :=
+  match n, args with
+  | S n', a :: t => let '(l, r) := take_n n' t in (a :: l, r)
+  | _, _ => ([], args)
+  end.
+Definition nat_of (a : list N) : nat := N.to_nat (parse_N a).
+Definition show_wobs (kinds : list (list N)) (o : wobs) : list N :=
+  match o with WNone => [] | WObs r => show_obs kinds r | WValueError => bang_V end.
+
+Fixpoint wexec (fuel : nat) (w : world) (args : list (list N)) (out : list (list N)) : list (list N) :=
+  match fuel with
+  | O => out
+  | S fuel' =>
+    match args with
+    | [] => out
+    | op :: rest =>
+      if seqb op (asc "X") then
+        match rest with
+        | o :: t :: rest' => match Specifier t with
+                             | Some sp => wexec fuel' (fst (wstep w (WCell sp (parse_tri o)))) rest' out
+                             | None => bang_E :: out
+                             end
+        | _ => bad_prog :: out
+        end
+      else if seqb op (asc "L") then
+        match rest with
+        | o :: n :: rest' =>
+            let '(addrs, rest'') := take_n (nat_of n) rest' in
+            wexec fuel' (fst (wstep w (WSet (map nat_of addrs) (parse_tri o)))) rest'' out
+        | _ => bad_prog :: out
+        end
+      else if seqb op (asc "&") then
+        match rest with
+        | i :: j :: rest' => match wstep w (WAnd (nat_of i) (nat_of j)) with
+                             | (_, WValueError) => bang_V :: out
+                             | (w', _) => wexec fuel' w' rest' out
+                             end
+        | _ => bad_prog :: out
+        end
+      else if seqb op (asc "P") then
+        match rest with
+        | i :: o :: rest' => wexec fuel' (fst (wstep w (WSetOv (nat_of i) (parse_tri o)))) rest' out
+        | _ => bad_prog :: out
+        end
+      else if seqb op (asc "M") then
+        match rest with
+        | a :: o :: rest' => wexec fuel' (fst (wstep w (WCellOv (nat_of a) (parse_tri o)))) rest' out
+        | _ => bad_prog :: out
+        end
+      else if seqb op (asc "c") then
+        match rest with
+        | i :: a :: inst :: _ :: t :: rest' =>
+            wexec fuel' w rest' (show_wobs [] (snd (wstep w (WRead (nat_of i) (OpContains (parse_tri a) (parse_tri inst) t)))) :: out)
+        | _ => bad_prog :: out
+        end
+      else if seqb op (asc "in") then
+        match rest with
+        | i :: _ :: t :: rest' => wexec fuel' w rest' (show_wobs [] (snd (wstep w (WRead (nat_of i) (OpIn t)))) :: out)
+        | _ => bad_prog :: out
+        end
+      else if seqb op (asc "f") then
+        match rest with
+        | i :: a :: n :: rest' =>
+            let '(prs, rest'') := take_pairs (nat_of n) rest' in
+            wexec fuel' w rest'' (show_wobs (map fst prs) (snd (wstep w (WRead (nat_of i) (OpFilter (parse_tri a) (map snd prs))))) :: out)
+        | _ => bad_prog :: out
+        end
+      else if seqb op (asc "pre") then
+        match rest with
+        | i :: rest' => wexec fuel' w rest' (show_wobs [] (snd (wstep w (WRead (nat_of i) OpPre))) :: out)
+        | _ => bad_prog :: out
+        end
+      else if seqb op (asc "str") then
+        match rest with
+        | i :: rest' => wexec fuel' w rest' (set_str (resolve w (nat_of i)) :: out)
+        | _ => bad_prog :: out
+        end
+      else if seqb op (asc "xc") then
+        match rest with
+        | a :: arg :: _ :: t :: rest' =>
+            wexec fuel' w rest' (show_wobs [] (snd (wstep w (WReadCell (nat_of a) (OpContains (parse_tri arg) None t)))) :: out)
+        | _ => bad_prog :: out
+        end
+      else if seqb op (asc "xf") then
+        match rest with
+        | a :: arg :: n :: rest' =>
+            let '(prs, rest'') := take_pairs (nat_of n) rest' in
+            wexec fuel' w rest'' (show_wobs (map fst prs) (snd (wstep w (WReadCell (nat_of a) (OpFilter (parse_tri arg) (map snd prs))))) :: out)
+        | _ => bad_prog :: out
+        end
+      else if seqb op (asc "xpre") then
+        match rest with
+        | a :: rest' => wexec fuel' w rest' (show_wobs [] (snd (wstep w (WReadCell (nat_of a) OpPre))) :: out)
+        | _ => bad_prog :: out
+        end
+      else bad_prog :: out
+    end
+  end.
+
 Definition run_sets (cmd : list N) (args : list (list N)) : option (list N) :=
   if seqb cmd (asc "s.run") then Some (join [59] (rev (exec (S (List.length args)) [] args [])))
+  else if seqb cmd (asc "s.world") then Some (join [59] (rev (wexec (S (List.length args)) empty_world args [])))
   else None.
